@@ -10,10 +10,12 @@ RULE = (
     "focus alphabet incl. GLOBAL/STACK_GLOBAL/INST/OBJ/NEWOBJ/NEWOBJ_EX/REDUCE/BUILD/BINPERSID x "
     "POP/POP_MARK/DUP/memo/left-below, Hypothesis programs over the full alphabet and all "
     "encodings, natural pickles of generated values and instances at protocols 0-5). Oracle: the "
-    "multiset of import events (builtins family exempt) and of call events (canonical callee, "
+    "set of import events (builtins family exempt) and the multiset of call events (canonical callee, "
     "args, kwargs) logged by CPython's pure-Python unpickler over inert stubs must be included in "
     "the multiset logged when the decompiled source is executed over the same stubs; a decompile "
-    "that does not compile/run is a violation; refusing with an error is allowed. Non-trivial = "
+    "that does not compile/run is a violation; refusing with an error is allowed. Stacks of 2-4 such "
+    "pickles, some starting with an opcode fickling does not model: the stack is refused with an "
+    "error or has every member, each decompiling as it does alone. Non-trivial = "
     "program performs >= 1 call whose result is not simply the value at STOP (popped, below the "
     "result, duplicated, memoised, nested, argument of another call, BUILD target/state); "
     "distinct = distinct byte strings."
@@ -59,7 +61,56 @@ def judge(data, prog=None):
     return None, "ran"
 
 
+UNMODELLED_FIRST = (b"F1.5\n.", b"\x82\x01.", b"Ppid\n.", b"\x96\x01\x00\x00\x00\x00\x00\x00\x00x.", b"\x97.",
+                    b"F1.5\ncos\ngetpid\n)R\x86.", b"\x83\x01\x00.")  # fmt: skip
+
+
+def _safe_dumps(pickle, v, proto):
+    try:
+        return pickle.dumps(v, protocol=proto)
+    except Exception:  # noqa: BLE001 - not picklable at this protocol
+        return b"N."
+
+
+def judge_stack(parts):
+    """the refusal clause on a stack of pickles: either the stack is refused with an error, or
+    every member is there (none silently left out) and decompiles (or is refused) like it does
+    alone.  (Failure|None, klass)"""
+    import ast
+
+    from fickling.fickle import StackedPickle
+
+    data = b"".join(parts)
+    case = {"parts": [p.hex() for p in parts]}
+    try:
+        sp = StackedPickle.load(data)
+        got = [p.dumps() for p in sp]
+    except Exception:  # noqa: BLE001
+        return None, "stack-refused"
+    if got != list(parts):
+        return (
+            Failure(case, f"a stack of {len(parts)} pickles {[p[:30] for p in parts]!r} was accepted without error but "
+                          f"has {len(got)} members {[g[:30] for g in got]!r}: a pickle was left out instead of refused"),
+            "stack",
+        )
+    for i, (p, part) in enumerate(zip(sp, parts)):
+        try:
+            src = ast.unparse(p.ast)
+        except Exception:  # noqa: BLE001
+            continue
+        alone = diff.decompile(part)
+        if alone.status != "ok" or alone.src != src:
+            return (
+                Failure(case, f"member {i} of the stack decompiles to {src!r} but the same bytes alone "
+                              f"{'are refused' if alone.status != 'ok' else 'decompile to ' + repr(alone.src)}"),
+                "stack",
+            )
+    return None, "stack"
+
+
 def replay(case):
+    if "parts" in case:
+        return judge_stack([bytes.fromhex(p) for p in case["parts"]])[0]
     return judge(bytes.fromhex(case["hex"]))[0]
 
 
@@ -83,6 +134,7 @@ FUZZ_SEEDS = (
 def shards(tier):
     out = _progdiff.shards(tier, quick_len=4, thorough_len=6, kwargs_len=(7, 8))
     out += _fuzz_shards(tier)
+    out += [{"kind": "stacks", "n": 150 if tier == "quick" else 5000, "idx": i} for i in range(4)]
     return out
 
 
@@ -104,5 +156,28 @@ def run_shard(spec, seed):
             res, f"c03-{spec['idx']}", os.path.join(os.path.dirname(__file__), "prog_fuzz.py"), ["C03"],
             spec["runs"], seed, seeds=FUZZ_SEEDS if spec["idx"] % 2 == 0 else (), nt=decode.in_typed_domain,
         )
+        return res
+    if spec["kind"] == "stacks":
+        import pickle
+
+        from hypothesis import strategies as st
+
+        from vlib import asm, values, vocab
+        from vlib.runner import ShardResult, hypothesis_search
+
+        res = ShardResult()
+        nat = st.tuples(st.one_of(values.plain_values(max_leaves=4), values.instance_values()),
+                        st.sampled_from(range(6))).map(lambda t: _safe_dumps(pickle, *t))  # fmt: skip
+        progs = asm.programs(asm.full_profile(vocab.ASM_GLOBS), max_len=10).map(lambda p: p.data)
+        part = st.one_of(nat, progs, st.sampled_from(UNMODELLED_FIRST))
+
+        def body(parts):
+            f, klass = judge_stack(parts)
+            odd = [i for i, p in enumerate(parts) if p in UNMODELLED_FIRST]
+            res.note(b"|".join(parts), bool(odd) and odd != [0], klass=[klass, f"k={len(parts)}"],
+                     sample={"parts": [p.hex()[:80] for p in parts]})  # fmt: skip
+            return f
+
+        hypothesis_search(st.lists(part, min_size=2, max_size=4), body, seed, spec["n"], res, batch=500)
         return res
     return _progdiff.run_shard(spec, seed, judge, nt_prog, nt_bytes)
